@@ -4,6 +4,7 @@ A driver crate is generated (one function per macro x value type x tag count, an
 it), its MIR is dumped together with the two crates, and both functions are executed from the same symbolic global
 state; their event logs (argument evaluations, emits, handler calls, panics) must be identical."""
 import json
+import sys
 import os
 import time
 
@@ -195,6 +196,8 @@ def run(out, replay_path=None):
             obligations += 1
             ms = sorted((r[1], r[2]) for r in logs['m'])
             rs = sorted((r[1], r[2]) for r in logs['r'])
+            if ms != rs and os.environ.get('VERIF_DEBUG'):
+                print('DEBUG C17 diff', n, mode, 'only-macro:', [x for x in ms if x not in rs][:3], 'only-ref:', [x for x in rs if x not in ms][:3], file=sys.stderr)
             if ms != rs:
                 findings.append({'prop': 'C17', 'clause': 'same-as-tagged-quiet-send', 'macro': n, 'state': mode,
                                  'detail': 'statsd_%s!(%s, %d tags), global client %s: macro paths %r differ from the reference call chain %r' % (meth, t, nt, mode, ms[:2], rs[:2]),
